@@ -180,10 +180,29 @@ HIST_RULE = (
 )
 
 
-def generic(pid, level, quick, thorough, pclauses, antecedent, antecedent_text, extra_assumptions=()):
+def run_static_model(out, module, cfg=None, workers=16, timeout=3600):
+    """model check a fixed module of /verif/spec (constants in the module's own MC file)"""
+    import shutil
+    from . import tlc
+
+    wd = tlc.workdir("sm-" + module)
+    try:
+        tlc.prepare(wd)
+        r = tlc.run_tlc(wd, module, cfg or (module + ".cfg"), workers=workers, timeout=timeout)
+        if not r.ok:
+            r.trace_tail = r.out[-6000:]
+        out.add_model(r, module)
+        return r
+    finally:
+        shutil.rmtree(wd, ignore_errors=True)
+
+
+def generic(pid, level, quick, thorough, pclauses, antecedent, antecedent_text, extra_assumptions=(), models_quick=(), models_thorough=()):
     def fn(tier, seed):
         out = Outcome(pid, tier, seed, level)
         plans = quick if tier == "quick" else thorough
+        for m in (models_quick if tier == "quick" else models_thorough):
+            run_static_model(out, m)
         history_campaign(out, pid, [dict(p) for p in plans], pclauses=pclauses, antecedent=antecedent, seed=seed)
         out.coverage["rule"] = HIST_RULE
         out.coverage["antecedent"] = antecedent_text
@@ -333,4 +352,29 @@ generic(
     pclauses=["P_C19_Info", "P_C19_Dates", "P_C19_InfoSF"],
     antecedent=lambda ln, v: ln["op"]["op"] in ("info", "infosf") and has_history(ln),
     antecedent_text="info / info -sf while some history exists",
+)
+
+
+INV_C09 = ["Inv_C09_Identical", "Inv_C09_Detects", "Inv_NoInternal", "Inv_C14_Frame"]
+generic(
+    "C09", "model_checking",
+    quick=[dict(scope="dh", mode="simulate", num=80, depth=9, limit=1200, mc_maxgens=1, invariants=INV_C09)],
+    thorough=[dict(scope="dh", mode="simulate", num=1500, depth=11, mc_maxgens=2, invariants=INV_C09),
+              dict(scope="dh6", mode="simulate", num=300, depth=10, mc=False)],
+    pclauses=["P_C09_Identical", "P_C09_Detects", "P_C09_NoInternal"],
+    antecedent=lambda ln, v: ln["op"]["op"] == "verifydh" and bool(v.get("A_dh")),
+    antecedent_text="verify -dh on a history that holds at least one generation with directory hashes",
+)
+
+generic(
+    "C07", "model_checking",
+    quick=[dict(scope="dh6", mode="simulate", num=60, depth=10, limit=900, mc=False)],
+    thorough=[dict(scope="dh6", mode="simulate", num=1200, depth=12, mc=False),
+              dict(scope="ign", mode="simulate", num=200, depth=8, mc=False),
+              dict(scope="nest", mode="simulate", num=200, depth=9, mc=False)],
+    pclauses=["P_C07_Recorded", "P_C07_Relations", "P_C07_Printed"],
+    antecedent=lambda ln, v: (ln["op"]["op"] == "create" and not ln["op"].get("n") and wrote_something(ln)) or (ln["op"]["op"] == "verifydh" and ln["op"].get("co")),
+    antecedent_text="a create that recorded directory hashes, or a verify -dh -co that printed them",
+    models_quick=["MC_DirHashSmall"], models_thorough=["MC_DirHash"],
+    extra_assumptions=["an empty file and an empty directory hash alike by definition (both are the empty input); the signatures identify them"],
 )
